@@ -5,7 +5,7 @@
    Justification of the reading: Lib/../C07/FloatLink.v (integers of magnitude <= 2^53 and their sums, differences and
    products within that range are computed exactly by binary64; comparisons are exact on all finite doubles). *)
 From Coq Require Import ZArith Bool.
-From GeosV Require Import Lib.KernelDefs.
+From GeosV.Lib Require Import KernelDefs.
 Local Open Scope Z_scope.
 
 Definition add := Z.add.
